@@ -49,9 +49,13 @@ MENU = [0.0, 1.0, 0.77, float("nan"), -1.0, 1e300]
 PAIR_MENU = [float("nan"), -1.0, 1e300]
 BOUNDS = {
     "quick": {"screens_per_model": 6, "single_row_values": MENU, "pair_values": PAIR_MENU, "n_chunks": [1, 2, 3], "batch_size": 2,
-              "n_thetas": 4, "burnin": 1, "thin": 1},
+              "n_thetas": 4, "burnin": 1, "thin": 1,
+              "histories": "late results: every view of an unobserved plate taken before set_observed x 7 placeholder values; side operations: "
+                           "every concat / combine of the observed view with an unobserved plate (both orders), invert, to_screen, "
+                           "single_treatment_effects, ExperimentSpace.from_screen, each followed by training",
+              "interaction_model": "training data = combination rows AND the single-agent table (mean of the observed single-agent wells)"},
     "thorough": {"screens_per_model": 6, "single_row_values": MENU, "pair_values": MENU, "n_chunks": [1, 2, 3, 7], "batch_size": 2,
-                 "n_thetas": 5, "burnin": 2, "thin": 2},
+                 "n_thetas": 5, "burnin": 2, "thin": 2, "histories": "as quick", "interaction_model": "as quick"},
 }
 ASSUMPTIONS = [
     "the interaction model's transform outside [0.01, 0.99] is undocumented: its y is compared with logit(float32(obs)) only for observations inside that range",
@@ -209,6 +213,9 @@ def pipeline(model, rows, tier):
     ta = training_arrays(m)
     art["training"] = tuple(a.tobytes() for a in ta)
     art["n_obs"] = int(m.n_obs())
+    if model == "interaction":
+        # the single-agent table is training data of this model too (it is saved with every posterior sample)
+        art["lookup"] = tuple(sorted((int(k[0]), int(k[1]), float(v)) for k, v in m.single_effect_lookup.items()))
     res = sampling.sample(m, ThetaHolder(n_thetas=b["n_thetas"]), seed=3, n_chains=2, chain_index=1, n_burnin=b["burnin"], thin=b["thin"])
     art["thetas"] = theta_bytes(res)
     dense = None
@@ -257,6 +264,32 @@ def reference_training(model, rows, screen):
     return sorted(out, key=lambda t: t[:3] + ((t[3] if t[3] is not None else 0.0),))
 
 
+def reference_lookup(rows, screen):
+    """{(sample id, treatment id): mean of the OBSERVED single-agent wells of that pair, each well once}"""
+    acc = {}
+    for i, r in enumerate(rows):
+        if not r[4]:
+            continue
+        ids = [int(t) for t in screen.treatment_ids[i]]
+        non = [t for t in ids if t != -1]
+        if len(non) == 1:
+            acc.setdefault((int(screen.sample_ids[i]), non[0]), []).append(float(r[3]))
+    return {k: math.fsum(v) / len(v) for k, v in acc.items()}
+
+
+def compare_lookup(want, got_items):
+    got = {(s_, t): v for s_, t, v in got_items}
+    for k, v in sorted(want.items()):
+        if k not in got:
+            return f"single-agent table has no entry for (sample {k[0]}, treatment {k[1]}) although it is observed"
+        if not abs(got[k] - v) <= 1e-9 * (1 + abs(v)):
+            return f"single-agent table holds {got[k]!r} for (sample {k[0]}, treatment {k[1]}), the mean of its observed wells (each once) is {v!r}"
+    extra = sorted(k for k in got if k[1] != -1 and k not in want)
+    if extra:
+        return f"single-agent table has entries {extra} for pairs without an observed single-agent well"
+    return None
+
+
 def compare_training(ref, ta):
     y, cl, d1, d2 = ta
     got = sorted(zip(cl.tolist(), d1.tolist(), d2.tolist(), y.tolist()), key=lambda t: t[:3] + (t[3],))
@@ -296,6 +329,7 @@ def plan(tier, seed):
             items.append({"kind": "cli", "model": model, "screen": idx})
             items.append({"kind": "cli-chain", "model": model, "screen": idx})
             items.append({"kind": "late", "model": model, "screen": idx})
+            items.append({"kind": "sideops", "model": model, "screen": idx})
     return items
 
 
@@ -313,6 +347,10 @@ def run_pairs(item, col, tier):
     msg = compare_training(ref, ta)
     if msg:
         col.violation(f"C04|training-set|{model}", f"{model} model, screen {idx}: {msg}", {"kind": "training", "model": model, "screen": idx})
+    if model == "interaction":
+        msg = compare_lookup(reference_lookup(rows, screen), base_art["lookup"])
+        if msg:
+            col.violation(f"C04|training-set|single-agent-table|{model}", f"{model} model, screen {idx}: {msg}", {"kind": "training", "model": model, "screen": idx})
     if base_art["n_obs"] != len(ref):
         col.violation(f"C04|n_obs|{model}", f"n_obs()={base_art['n_obs']} but {len(ref)} documented training rows", {"kind": "training", "model": model, "screen": idx})
     col.outcome(model, idx, "base", digest(base_art))
@@ -557,7 +595,72 @@ def run_late_item(item, col, tier):
                               f"{model} model, screen {idx}: training data handed over through {label} changes with the placeholder {v} that sat behind the mask", case)
 
 
+def side_ops(screen):
+    """Public operations that READ a partially observed screen (what scoring and the plate bookkeeping do with it); each
+    is a closure run before training.  None of them reveals anything."""
+    from batchie.data import ScreenSubset
+
+    ops = []
+    un = sorted(int(p.plate_id) for p in screen.plates if not p.is_observed)
+    for pid in un:
+        ops.append((f"concat([observed, plate {pid}])", lambda s, pid=pid: ScreenSubset.concat([s.subset_observed(), s.get_plate(pid)])))
+        ops.append((f"concat([plate {pid}, observed])", lambda s, pid=pid: ScreenSubset.concat([s.get_plate(pid), s.subset_observed()])))
+        ops.append((f"observed.combine(plate {pid})", lambda s, pid=pid: s.subset_observed().combine(s.get_plate(pid))))
+        ops.append((f"plate {pid}.combine(observed)", lambda s, pid=pid: s.get_plate(pid).combine(s.subset_observed())))
+    if len(un) >= 2:
+        ops.append(("concat([observed] + all unobserved plates)", lambda s: ScreenSubset.concat([s.subset_observed()] + [s.get_plate(p) for p in un])))
+        ops.append(("concat(all unobserved plates + [observed])", lambda s: ScreenSubset.concat([s.get_plate(p) for p in un] + [s.subset_observed()])))
+    ops.append(("observed.invert()", lambda s: s.subset_observed().invert()))
+    ops.append(("unobserved.to_screen()", lambda s: s.subset_unobserved().to_screen()))
+    ops.append(("single_treatment_effects", lambda s: s.single_treatment_effects))
+    ops.append(("ExperimentSpace.from_screen", lambda s: ExperimentSpace.from_screen(s)))
+    return ops
+
+
+def run_sideops_item(item, col, tier):
+    """History: one reading operation on the screen, then training on screen.subset_observed().  The model must still get
+    exactly the experiments that were observed when the screen was built (nothing else was ever revealed)."""
+    model, idx = item["model"], item["screen"]
+    rows = base_rows(model, idx)
+    probe = make_screen(rows, control=CTL)
+    mask0 = np.asarray(probe.observation_mask, dtype=bool).copy()
+    for label, _ in side_ops(probe):
+        screen = make_screen(rows, control=CTL)
+        op = dict(side_ops(screen))[label]
+        case = {"kind": "sideops", "model": model, "screen": idx, "op": label}
+        col.evaluations += 1
+        col.states += 1
+        col.transitions += 2
+        try:
+            op(screen)
+        except Exception as exc:  # noqa: BLE001
+            if not exception_origin_in_repo(exc):
+                raise
+            col.refused += 1
+            col.outcome("sideops", label.split("(")[0], "refused")
+            continue
+        if not np.array_equal(np.asarray(screen.observation_mask, dtype=bool), mask0):
+            col.violation(f"C04|side-op|mask-changed|{model}", f"{model} model, screen {idx}: after {label} the screen's observation mask is "
+                          f"{np.asarray(screen.observation_mask).tolist()}, it was {mask0.tolist()} (nothing was revealed)", case)
+        m = make_model(model, screen)
+        try:
+            m.add_observations(screen.subset_observed())
+        except Exception as exc:  # noqa: BLE001
+            if not exception_origin_in_repo(exc):
+                raise
+            col.violation(f"C04|side-op|training-raises|{model}", f"{model} model, screen {idx}: after {label} training on subset_observed() raises {short_exc(exc)}", case)
+            continue
+        ta = training_arrays(m)
+        msg = compare_training(reference_training(model, rows, screen), ta)
+        if msg:
+            col.violation(f"C04|side-op|training-set|{model}", f"{model} model, screen {idx}: after {label}: {msg}", case)
+        col.outcome("sideops", label.split("(")[0], digest(tuple(a.tobytes() for a in ta)))
+        col.nontriv("sideops", model, idx, label)
+
+
 def run_item(item, col, tier):
+    if item["kind"] == "sideops":
+        return run_sideops_item(item, col, tier)
     if item["kind"] == "late":
         return run_late_item(item, col, tier)
     {"pairs": run_pairs, "refusal": run_refusal, "cli": run_cli_item, "cli-chain": run_cli_chain_item}[item["kind"]](item, col, tier)
@@ -574,6 +677,11 @@ def replay(case, col):
         print("training arrays:", [a.tolist() for a in ta])
         if msg:
             col.violation(f"C04|training-set|{model}", msg, case)
+        if model == "interaction":
+            msg = compare_lookup(reference_lookup(rows, screen), art["lookup"])
+            print("single-agent table:", art["lookup"])
+            if msg:
+                col.violation(f"C04|training-set|single-agent-table|{model}", msg, case)
     elif kind == "pair":
         var = {int(k): floats(v) for k, v in case["variant"].items()}
         base_art, _, _ = pipeline(model, rows, tier)
@@ -594,4 +702,6 @@ def replay(case, col):
         run_cli_chain_item({"model": model, "screen": idx}, col, tier)
     elif kind == "late":
         run_late_item({"model": model, "screen": idx}, col, tier)
+    elif kind == "sideops":
+        run_sideops_item({"model": model, "screen": idx}, col, tier)
     col.evaluations += 1
